@@ -10,7 +10,16 @@ const CHARS: [char; 12] = ['a', 'b', 'Z', '0', ' ', 'Ã©', 'ÃŸ', 'Î©', 'â‚¬', 'èª
 pub fn text(r: &mut Rng, max: usize) -> String {
     // now and then a long text: thresholds in the code under test (chunk sizes, word-at-a-time
     // loops, amortisation steps) lie well above the usual handful of characters
-    let n = if r.chance(1, 60) { r.usize_below(3000) } else { r.usize_below(max + 1) };
+    let n = if r.chance(1, 60) {
+        if r.chance(1, 12) {
+            // around 2^16 bytes
+            25_000 + r.usize_below(15_000)
+        } else {
+            r.usize_below(3000)
+        }
+    } else {
+        r.usize_below(max + 1)
+    };
     (0..n).map(|_| *r.pick(&CHARS)).collect()
 }
 
@@ -96,6 +105,10 @@ fn hint(r: &mut Rng) -> HintKind {
 
 fn small(r: &mut Rng) -> usize {
     if r.chance(1, 80) {
+        if r.chance(1, 10) {
+            // element counts around 2^16 (and byte sizes around 2^18 .. 2^21 for wider elements)
+            return 65_000 + r.below(1200) as usize;
+        }
         return 300 + r.below(6000) as usize;
     }
     match r.below(10) {
